@@ -1099,6 +1099,96 @@ impl Family for ManyRows {
     }
 }
 
+/// Two binary resultsets of different width on one connection with exactly N exchanges of another
+/// kind in between, N around the points where 8- and 16-bit counters of resultsets / commands wrap:
+/// a narrow one (2 columns, NULL in the second), N x (a one-row text resultset | a bare completion |
+/// a zero-column set), then a wide one (10 columns, NULLs in columns 3 and 9). Every row compared.
+struct ResultsetsBetween {
+    ns: Vec<usize>,
+}
+const BETWEEN: [&str; 3] = ["one-row text resultsets", "bare completions", "zero-column resultsets of one row"];
+impl Family for ResultsetsBetween {
+    fn name(&self) -> String {
+        "binary-resultsets-of-different-width-n-exchanges-apart".into()
+    }
+    fn len(&self) -> u64 {
+        self.ns.len() as u64 * 3
+    }
+    fn max_threads(&self) -> Option<usize> {
+        Some(8)
+    }
+    fn run(&self, idx: u64, st: &mut Stats) -> Result<(), Violation> {
+        let n = self.ns[(idx / 3) as usize];
+        let kind = (idx % 3) as usize;
+        st.nontrivial += 1;
+        st.bump("resultsets_between");
+        let long = |k: usize| Arc::new((0..k).map(|i| col(&format!("c{}", i), ColumnType::MYSQL_TYPE_LONG, ColumnFlags::empty())).collect::<Vec<_>>());
+        let (narrow, wide, text) = (long(2), long(10), Arc::new(vec![col("t", ColumnType::MYSQL_TYPE_VAR_STRING, ColumnFlags::empty())]));
+        let narrow_row = vec![Val::I32(11), Val::Null];
+        let wide_row: Vec<Val> = (0..10).map(|i| if i == 3 || i == 9 { Val::Null } else { Val::I32(100 + i) }).collect();
+        let mut cmds = vec![ClientCmd::new(with_byte(COM_STMT_PREPARE, b"id=1 p=0")), ClientCmd::new(with_byte(COM_STMT_PREPARE, b"id=2 p=0")), ClientCmd::new(cmd_execute(1, 0, 1, &[]))];
+        for _ in 0..n {
+            cmds.push(q(b"between"));
+        }
+        cmds.push(ClientCmd::new(cmd_execute(2, 0, 1, &[])));
+        cmds.push(ClientCmd::new(cmd_execute(1, 0, 1, &[])));
+        cmds.push(ping());
+        let conv = Conv::new(cmds);
+        let s = conv.stream();
+        let stream = Arc::new(s.bytes);
+        let mut sim = sim_for(&stream, vec![]);
+        sim.log_ops = false;
+        let (n2, w2, nr, wr) = (narrow.clone(), wide.clone(), narrow_row.clone(), wide_row.clone());
+        let behave = Box::new(move |_: usize, cb: &Cb| match cb {
+            Cb::Prepare(t) => {
+                let (id, p, c, _) = parse_prep(t);
+                Behavior::PrepReply { id, params: param_cols(p), cols: param_cols(c) }
+            }
+            Cb::Execute { id: 1, .. } => Behavior::Prog(Arc::new(vec![WOp::Start(n2.clone()), WOp::WriteRow(nr.clone()), WOp::Finish])),
+            Cb::Execute { .. } => Behavior::Prog(Arc::new(vec![WOp::Start(w2.clone()), WOp::WriteRow(wr.clone()), WOp::Finish])),
+            Cb::Query(_) => Behavior::Prog(Arc::new(match kind {
+                0 => vec![WOp::Start(text.clone()), WOp::WriteRow(vec![Val::Str("x".into())]), WOp::Finish],
+                1 => vec![WOp::Completed(1, 0)],
+                _ => vec![WOp::Start(Arc::new(Vec::new())), WOp::EndRow, WOp::Finish],
+            })),
+            _ => Behavior::Silent,
+        });
+        let o = run_conn(sim, ConnCfg::new(behave));
+        st.transitions += n as u64 + 3;
+        let what = format!("a 2-column binary resultset, {} {}, a 10-column one, the 2-column one again", n, BETWEEN[kind]);
+        if let ConnResult::Panic(l, m) = &o.res {
+            return Err(Violation::new(panic_key(l, m), format!("{}: run_on panicked at {}: {}", what, l, m)));
+        }
+        if !o.res.is_ok() {
+            return Err(Violation::new("result-not-ok", format!("{}: run_on returned {}", what, o.res.short())));
+        }
+        let d = decode_all(delivered(&o), &conv, &s.last_seq, conv.cmds.len(), false).map_err(|e| Violation::new("row-undecodable", format!("{}: {}", what, e)))?;
+        let check = |ri: usize, want: &Vec<Val>, cols: &Arc<Vec<Column>>| -> Result<(), Violation> {
+            match &d.replies[ri][..] {
+                [Unit::ResultSet { rows, end: Ok(_), .. }] if rows.len() == 1 => {
+                    for (i, v) in want.iter().enumerate() {
+                        let ok = match expected_cell(v, cols[i].coltype as u8, false) {
+                            None => rows[0][i] == Cell::Null,
+                            Some(b) => same_cell(&rows[0][i], &Cell::Bin(b)),
+                        };
+                        if !ok {
+                            return Err(Violation::new("cell-differs-after-many-resultsets", format!("{}: reply {} column {}: wrote {}, the client decodes {:?}", what, ri, i, val_short(v), rows[0][i])));
+                        }
+                    }
+                    Ok(())
+                }
+                other => Err(Violation::new("rows-missing", format!("{}: reply {} has {} unit(s)", what, ri, other.len()))),
+            }
+        };
+        check(2, &narrow_row, &narrow)?;
+        check(3 + n, &wide_row, &wide)?;
+        check(4 + n, &narrow_row, &narrow)
+    }
+    fn describe(&self, idx: u64) -> J {
+        json!({"exchanges_between": self.ns[(idx / 3) as usize], "kind": BETWEEN[(idx % 3) as usize]})
+    }
+}
+
 pub fn build(quick: bool) -> Check {
     let mut ns: Vec<usize> = (13..=70).collect();
     ns.extend([127, 128, 129, 255, 256, 257, 300, 511, 512, 513, 1000]);
@@ -1108,12 +1198,12 @@ pub fn build(quick: bool) -> Check {
     Check {
         id: "C07",
         level: "model_checking",
-        rule: format!("binary resultsets through the real run_on, decoded from the advertised column definitions by refwire and cell by cell by mysql_common's BinValue: column counts 1..{} x all 2^n NULL patterns (three rows: pattern, complement, pattern) with 12 cycling column types of different widths; column counts up to 1000 with structured patterns (none, all, every single NULL / non-NULL, alternations, prefixes/suffixes ending around every multiple of 8); NULL into NOT NULL for all patterns of <= 6 columns x 4 flag placements; the matrix of {} value sources x all 31 column types x signedness x NOT NULL; at the to_mysql_bin seam every second of 0..838:59:59 x 3 microsecond values as TIME, every calendar date of years 0..9999 as DATE, every second of a day x 3 microsecond values as DATETIME, 22 microsecond values of every decimal shape at midnight and other times and at day boundaries of TIME; a refused cell (NULL into NOT NULL, wrong type, out of range, invalid generic date/time) at each column followed by a replacement value; rows built partly by write_col and partly by write_row over columns of different width and signedness, every split point, with values that fit a neighbouring column but not their own. Oracle: decoded cells equal the written values, bitmap bits = NULL cells exactly, natural pairings accepted, anything accepted is exact, mismatches refused without emitting undecodable output. Very many rows: one binary resultset of 4097 / 8193 / 16385 / 65537 (thorough: up to 300000) rows of 3 and 10 columns, first row long, NULLs and values moving with the row number, every row compared. Values in context: every sequence of <= 3 (thorough: 4) events on one connection (rows of other shapes incl. all-NULL / alternating NULLs / 300- and 70000-byte cells, a refused cell, a new resultset behind finish_one with the same or other columns, behind a completion, behind a zero-column set, a new command in the same or the other protocol, finish_error) followed by a probe row of characteristic values for nine column types; every row of the conversation must decode cell for cell to what was written. Non-trivial = bitmap crosses a byte boundary or a type pairing the unit tests never make.", if quick {12} else {14}, value_palette().len()),
+        rule: format!("binary resultsets through the real run_on, decoded from the advertised column definitions by refwire and cell by cell by mysql_common's BinValue: column counts 1..{} x all 2^n NULL patterns (three rows: pattern, complement, pattern) with 12 cycling column types of different widths; column counts up to 1000 with structured patterns (none, all, every single NULL / non-NULL, alternations, prefixes/suffixes ending around every multiple of 8); NULL into NOT NULL for all patterns of <= 6 columns x 4 flag placements; the matrix of {} value sources x all 31 column types x signedness x NOT NULL; at the to_mysql_bin seam every second of 0..838:59:59 x 3 microsecond values as TIME, every calendar date of years 0..9999 as DATE, every second of a day x 3 microsecond values as DATETIME, 22 microsecond values of every decimal shape at midnight and other times and at day boundaries of TIME; a refused cell (NULL into NOT NULL, wrong type, out of range, invalid generic date/time) at each column followed by a replacement value; rows built partly by write_col and partly by write_row over columns of different width and signedness, every split point, with values that fit a neighbouring column but not their own. Oracle: decoded cells equal the written values, bitmap bits = NULL cells exactly, natural pairings accepted, anything accepted is exact, mismatches refused without emitting undecodable output. Binary resultsets of 2 and 10 columns exactly N exchanges apart (N = 0, 1, 254..257, 65534..65537; thorough: more) with text resultsets, completions or zero-column sets in between. Very many rows: one binary resultset of 4097 / 8193 / 16385 / 65537 (thorough: up to 300000) rows of 3 and 10 columns, first row long, NULLs and values moving with the row number, every row compared. Values in context: every sequence of <= 3 (thorough: 4) events on one connection (rows of other shapes incl. all-NULL / alternating NULLs / 300- and 70000-byte cells, a refused cell, a new resultset behind finish_one with the same or other columns, behind a completion, behind a zero-column set, a new command in the same or the other protocol, finish_error) followed by a probe row of characteristic values for nine column types; every row of the conversation must decode cell for cell to what was written. Non-trivial = bitmap crosses a byte boundary or a type pairing the unit tests never make.", if quick {12} else {14}, value_palette().len()),
         assumptions: vec!["integer range rules are C15's; here an accepted integer must be exact".into()],
         bounds: json!({"exhaustive_null_patterns_up_to_columns": if quick {12} else {14}, "max_columns": 1000}),
         exhaustive: true,
         caps_hit: vec![],
-        families: vec![Box::new(AllPatterns { max_n: if quick { 12 } else { 14 } }), Box::new(Structured { ns }), Box::new(NotNull), Box::new(TypeMatrix { vals: value_palette() }), Box::new(TemporalBin), Box::new(Recover), Box::new(MixedRows), Box::new(super::aftermath::Aftermath { prop: "C07" }), Box::new(ManyRows { ns: if quick { vec![4097, 8193, 16385, 65537] } else { vec![255, 257, 4095, 4097, 8193, 16385, 32769, 65535, 65537, 131073, 300000] } }), Box::new(super::context::ContextWalks { prop: "C07", depth: 1, start_bin: true }), Box::new(super::context::ContextWalks { prop: "C07", depth: 2, start_bin: true }), Box::new(super::context::ContextWalks { prop: "C07", depth: 3, start_bin: true }), Box::new(super::context::ContextWalks { prop: "C07", depth: if quick { 0 } else { 4 }, start_bin: true })],
-        required: vec!["many_rows", "context_walks", "mixed_rows", "mixed_rows_trap_refused", "aftermath_recovered", "bitmaps_crossing_a_byte", "structured_patterns", "null_into_not_null", "matrix_refused", "matrix_accepted", "binary_durations", "binary_dates", "binary_times_of_day", "recoveries"],
+        families: vec![Box::new(AllPatterns { max_n: if quick { 12 } else { 14 } }), Box::new(Structured { ns }), Box::new(NotNull), Box::new(TypeMatrix { vals: value_palette() }), Box::new(TemporalBin), Box::new(Recover), Box::new(MixedRows), Box::new(super::aftermath::Aftermath { prop: "C07" }), Box::new(ResultsetsBetween { ns: if quick { vec![0, 1, 254, 255, 256, 257, 65_534, 65_535, 65_536, 65_537] } else { vec![0, 1, 2, 126, 127, 128, 254, 255, 256, 257, 511, 512, 4095, 4096, 32_767, 32_768, 65_533, 65_534, 65_535, 65_536, 65_537, 131_071, 131_072] } }), Box::new(ManyRows { ns: if quick { vec![4097, 8193, 16385, 65537] } else { vec![255, 257, 4095, 4097, 8193, 16385, 32769, 65535, 65537, 131073, 300000] } }), Box::new(super::context::ContextWalks { prop: "C07", depth: 1, start_bin: true }), Box::new(super::context::ContextWalks { prop: "C07", depth: 2, start_bin: true }), Box::new(super::context::ContextWalks { prop: "C07", depth: 3, start_bin: true }), Box::new(super::context::ContextWalks { prop: "C07", depth: if quick { 0 } else { 4 }, start_bin: true })],
+        required: vec!["many_rows", "resultsets_between", "context_walks", "mixed_rows", "mixed_rows_trap_refused", "aftermath_recovered", "bitmaps_crossing_a_byte", "structured_patterns", "null_into_not_null", "matrix_refused", "matrix_accepted", "binary_durations", "binary_dates", "binary_times_of_day", "recoveries"],
     }
 }
